@@ -42,7 +42,7 @@ def cases(prop, tier, seed):
         t = 0
         for dt in VALUES:
             for si, ml in enumerate(SENTINELS):
-                for shape in ("empty", "1d", "2d"):
+                for shape in ("empty", "1d", "2d", "empty2d"):
                     for pat in ("all", "none", "mixed"):
                         for cont in ("array", "list"):
                             for with_classes in (False, True):
@@ -60,7 +60,7 @@ def cases(prop, tier, seed):
 def build_y(case):
     ml = SENTINELS[case["si"]]
     vals = VALUES[case["dt"]]
-    n = {"empty": 0, "1d": 4, "2d": 3}[case["shape"]]
+    n = {"empty": 0, "1d": 4, "2d": 3, "empty2d": 0}[case["shape"]]
     rs = np.random.RandomState(case["t"])
     def cell(i):
         if case["pat"] == "all":
@@ -76,6 +76,10 @@ def build_y(case):
 
 
 def to_container(data, case, ml):
+    if case["shape"] == "empty2d":
+        # an empty label MATRIX (0 samples, 2 annotators): only an ndarray can carry that shape
+        kind = {"float": float, "int": int, "str": "U5", "object": object}.get(case["dt"], object)
+        return np.empty((0, 2), dtype=object if ml is None else kind)
     if case["cont"] == "list":
         return data
     dt = case["dt"]
@@ -118,8 +122,8 @@ def run_c16(case, fail):
         exp2 = (arr.astype(tt) == ml).ravel().tolist()
     else:
         exp2 = exp
-    if u.shape != np.asarray(y, dtype=object).shape and len(exp):
-        fail("C16.mask_shape", f"{u.shape} for labels of shape {np.asarray(y, dtype=object).shape}")
+    if (u.shape != np.asarray(y, dtype=object).shape or l.shape != u.shape) and (len(exp) or case["shape"] == "empty2d"):
+        fail("C16.mask_shape", f"{u.shape} / {l.shape} for labels of shape {np.asarray(y, dtype=object).shape}")
         return
     if u.dtype != bool or l.dtype != bool:
         fail("C16.mask_not_boolean", f"{u.dtype}, {l.dtype}")
@@ -139,6 +143,9 @@ def run_c16(case, fail):
     elif u.ndim == 2 and u.size:
         if np.asarray(ui).tolist() != np.argwhere(u).tolist() or np.asarray(li).tolist() != np.argwhere(~u).tolist():
             fail("C16.indices_wrong", "2-D index pairs are not the row-major positions of the mask")
+    elif case["shape"] == "empty2d":
+        if np.shape(ui) != (0, 2) or np.shape(li) != (0, 2):
+            fail("C16.indices_shape_empty_matrix", f"index arrays of shape {np.shape(ui)} / {np.shape(li)} for an empty (0, 2) label matrix, expected (0, 2)")
     if not same_kind:
         return      # a sentinel of another kind than the labels is not a supported combination: only predicate consistency is required
     # encoder
@@ -167,8 +174,11 @@ def run_c16(case, fail):
     cl = list(np.asarray(le.classes_).tolist())
     if cl != sorted(cl):
         fail("C16.classes_not_sorted", f"{cl}")
-    if enc.shape != np.asarray(y, dtype=object).shape and len(exp):
+    if enc.shape != np.asarray(y, dtype=object).shape and (len(exp) or case["shape"] == "empty2d"):
         fail("C16.encoded_shape", f"{enc.shape}")
+        return
+    if case["shape"] == "empty2d" and dec.shape != (0, 2):
+        fail("C16.decoded_shape", f"{dec.shape}")
         return
     for v, m, e in zip(flat(data), exp2, enc.ravel().tolist()):
         if m and e != -1:
